@@ -226,6 +226,12 @@ def check(case):
             w = wn.Wordnet(lexicon=' '.join(specs), expand='')
         out = d / 'export.xml'
         if case.get('clash'):
+            # a second lexicon with the same entity ids in the same export must be refused
+            T2 = twin_of(R['lexicons'][0], case['doc']['v'])
+            env.add(env.write_file('clash.xml', xmlw.serialize({'lmf_version': case['doc']['v'], 'lexicons': [T2]}), d))
+            with warnings.catch_warnings():
+                warnings.simplefilter('ignore')
+                w = wn.Wordnet(lexicon=f"{specs[0]} {spec_of(T2)}", expand='')
             try:
                 wn.export(w.lexicons(), out, version=e)
                 V.append(('export:clashing-ids-not-refused', 'export of lexicons with clashing ids did not raise'))
@@ -356,6 +362,7 @@ def space(tier, seed):
             for e in ('1.0', v):
                 cases.append({'doc': {'v': v, 'kind': 'feat', 'base': 'M', 'delta': []}, 'e': e, 'ext': True})
         for e in docs.VERSIONS:
+            cases.append({'doc': {'v': v, 'kind': 'feat', 'base': 'M', 'delta': []}, 'e': e, 'clash': True})
             cases.append({'doc': {'v': v, 'kind': 'feat', 'base': 'M', 'delta': []}, 'e': e, 'warm': True})
             for score in (0, 0.0, 0.5):
                 cases.append({'doc': {'v': v, 'kind': 'feat', 'base': 'M', 'delta': []}, 'e': e, 'numscore': score})
